@@ -696,7 +696,7 @@ class C14:
             hists = [h for h, _ in load_histories(replay)]
             if not hists: raise BuildError('no history (#json line) in replay file ' + replay)
         else:
-            n = 260 if tier == 'quick' else 3000
+            n = 500 if tier == 'quick' else 6000
             kinds = ['valid'] * 6 + ['misuse'] * 2 + ['builtin_full']
             hists = corpus() + [gen_history(rng, rng.choice(kinds)) for _ in range(n)]
         bad = []
